@@ -14,7 +14,7 @@ def summary(out):
     return json.loads(m.group(1))
 
 
-def parallel(jobs, workers=6):
+def parallel(jobs, workers=3):
     """Run independent thunks (TLC runs, go builds) concurrently; results in order; first exception re-raised."""
     with ThreadPoolExecutor(workers) as ex:
         futs = [ex.submit(j) for j in jobs]
